@@ -311,7 +311,9 @@ class List(list, base.Symbolic, pg_typing.CustomTyping):
   def sym_hash(self) -> int:
     """Symbolically hashing."""
     return base.sym_hash(
-        (self.__class__, tuple([base.sym_hash(e) for e in self.sym_values()]))
+        # NOTE: symbolic equality does not tell a subclass of `pg.List` from
+        # `pg.List`, so the hash does not either.
+        (List, tuple([base.sym_hash(e) for e in self.sym_values()]))
     )
 
   def _sym_getattr(self, key: int) -> Any:   # pytype: disable=signature-mismatch  # overriding-parameter-type-checks
